@@ -98,10 +98,20 @@ fn history(rep: &mut Report, rng: &mut Rng, idx: u64) {
     step!(e.open());
     let n_ops = 3 + rng.usize_below(55);
     let mut seq = 0;
+    let mut next_literal = 0usize;
     for _ in 0..n_ops {
         if rng.chance(1, 10) {
             step!(e.open());
             rep.count("restarts", 1);
+            continue;
+        }
+        // with the pattern encoder ({m}{n}) a few records are literal messages
+        if enc_kind == 0 && next_literal < crate::frames::LITERAL_FRAMES.len() && rng.chance(1, 5) {
+            let (lseq, llen, text) = crate::frames::LITERAL_FRAMES[next_literal];
+            next_literal += 1;
+            debug_assert_eq!(crate::frames::message_for(crate::frames::LITERAL_TID, lseq, llen, false), text);
+            rep.count("literal_messages_appended", 1);
+            step!(e.append(crate::frames::LITERAL_TID, lseq, Some(llen)));
             continue;
         }
         let len = crate::c05::sizes_around(limit, rng);
